@@ -65,6 +65,12 @@ class Sim:
             self.pw_prefix = b'L' * 64 + self.pw_prefix
         self.printed = []             # stdout of init / add-key (what a user would see or save)
         self.plain = None             # C05: needle bookkeeping
+        self.cache_dir = None
+        if cfg.get('cache', 'none') != 'none':
+            self.cache_dir = os.path.join(self.work, 'cache')
+            self.events.add('cache:' + cfg['cache'])
+            if cfg['cache'] == 'neighbour' and not cfg.get('neighbour_late'):
+                self._neighbour_setup()
         self._init_repo()
 
     # ------------------------------------------------------------------ plumbing
@@ -104,14 +110,66 @@ class Sim:
     def count(self, k, n=1):
         self.counts[k] = self.counts.get(k, 0) + n
 
+    def new_repo(self):
+        return world.repository(self.backend(), self.n, self.cache_dir)
+
+    # A second repository of the same user (its own backend, its own key or none) that uses the same cache directory: the
+    # default cache location is per user, so this is the normal situation of anybody with two repositories.
+    def _neighbour_setup(self):
+        self.nb_store = membackend.Store()
+        enc = self.cfg.get('neighbour') == 'encrypted'
+        st_ = {'hashing': {'name': 'blake2b', 'length': 32}, 'chunking': {'min_length': 16, 'max_length': 64},
+               'encryption': {'cipher': {'name': 'chacha20_poly1305'}, 'kdf': world.cheap_kdf(0)} if enc else None}
+        self.nb_pw = b'neighbour-pw' if enc else None
+        self.nb_backend = lambda: world.backend_for('mem', self.nb_store)
+        repo = world.repository(self.nb_backend(), 2, self.cache_dir)
+
+        async def go():
+            return await repo.init(password=self.nb_pw, settings=st_)
+        res, _ = self.run(go())
+        self.nb_key = refimpl.dumps(res.key) if res.key is not None else None
+        self.nb_src = os.path.join(self.work, 'nb-src')
+        os.makedirs(self.nb_src, exist_ok=True)
+        self.nb_n = 0
+
+    def op_neighbour(self, op):
+        if self.cache_dir is None or self.cfg.get('cache') != 'neighbour':
+            return None
+        self.events.add('neighbour-repository-used-the-cache')
+        if not hasattr(self, 'nb_store'):
+            # the other repository is created after this one
+            try:
+                self._neighbour_setup()
+            except Exception:
+                self.events.add('neighbour-command-failed')
+                self.cfg = dict(self.cfg, cache='neighbour-unusable')
+            return None
+
+        async def go():
+            repo = world.repository(self.nb_backend(), 2, self.cache_dir)
+            await repo.unlock(password=self.nb_pw, key=self.nb_key)
+            if op.get('what', 0) % 2 == 0:
+                self.nb_n += 1
+                with open(os.path.join(self.nb_src, 'nbfile'), 'wb') as f:
+                    f.write(b'neighbour data %d ' % self.nb_n * 9)
+                await repo.snapshot(paths=[Path(self.nb_src)])
+            else:
+                await repo.list_snapshots(header=False)
+        try:
+            self.run(go())
+        except Exception:
+            # what happens to the neighbour is not this history's subject (C17/C18 look at it); the history goes on
+            self.events.add('neighbour-command-failed')
+        return None
+
     def client(self, j):
         """j == 0: fresh Repository (a new process); j > 0: a long-lived Repository object
         (library use), re-unlocked for whichever user issues the command."""
         j = j % 3
         if j == 0:
-            return world.repository(self.backend(), self.n)
+            return self.new_repo()
         if j not in self.clients:
-            self.clients[j] = world.repository(self.backend(), self.n)
+            self.clients[j] = self.new_repo()
         self.events.add('persistent-client')
         return self.clients[j]
 
@@ -137,7 +195,7 @@ class Sim:
         import copy
         pw = self.pw_prefix + b'0' if self.encrypted else None
 
-        init_repo = world.repository(self.backend(), self.n)
+        init_repo = self.new_repo()
 
         async def go():
             return await init_repo.init(password=pw, settings=copy.deepcopy(self.cfg['settings']))
@@ -201,7 +259,7 @@ class Sim:
         settings = {'encryption': {'kdf': world.cheap_kdf(op.get('kdf', 0))}}
 
         async def go():
-            repo = world.repository(self.backend(), self.n)
+            repo = self.new_repo()
             if shared:
                 await repo.unlock(password=src.password, key=src.key)
             return await repo.add_key(password=pw, settings=settings, shared=shared)
@@ -517,14 +575,14 @@ class Sim:
                 tgt = os.path.join(self.work, f'crestore-{self.step}-{slot}')
 
                 async def go(u=u, s=s, tgt=tgt):
-                    repo = world.repository(self.backend(), self.n)
+                    repo = self.new_repo()
                     await repo.unlock(password=u.password, key=u.key)
                     return await repo.restore(snapshot_regex=f'^{s.name}$', path=Path(tgt))
                 coros.append(go())
                 post.append(('restore', u, s, tgt))
             else:
                 async def go(u=u):
-                    repo = world.repository(self.backend(), self.n)
+                    repo = self.new_repo()
                     await repo.unlock(password=u.password, key=u.key)
                     await repo.list_snapshots(header=False)
                 coros.append(go())
@@ -583,7 +641,7 @@ class Sim:
         self.events.add('wrong-unlock')
 
         async def go():
-            repo = world.repository(self.backend(), self.n)
+            repo = self.new_repo()
             await repo.unlock(password=pw, key=key)
             return repo
         try:
@@ -758,7 +816,16 @@ def sim_config(draw, encrypted=None):
     mn, mx = s['chunking']['min_length'], s['chunking']['max_length']
     contents = draw(st.lists(gen.content_spec(mn, mx), min_size=3, max_size=6))
     return {'settings': s, 'backend': draw(st.sampled_from(['mem', 'amem'])),
-            'concurrent': draw(st.sampled_from([1, 2, 3, 5, 8])), 'contents': contents}
+            'concurrent': draw(st.sampled_from([1, 2, 3, 5, 8])), 'contents': contents, **draw(cache_mode())}
+
+
+@st.composite
+def cache_mode(draw):
+    """No cache directory, one of its own, or one shared with another repository of the same user."""
+    c = draw(st.sampled_from(['none', 'none', 'own', 'neighbour', 'neighbour']))
+    if c != 'neighbour':
+        return {'cache': c}
+    return {'cache': c, 'neighbour': draw(st.sampled_from(['plain', 'plain', 'encrypted'])), 'neighbour_late': draw(st.booleans())}
 
 
 fileset = st.lists(st.tuples(st.integers(0, 7), st.integers(0, 5)), min_size=0, max_size=5).map(lambda l: [list(x) for x in l])
@@ -849,6 +916,7 @@ def make_machine(prop, tier, ctx, *, checks, encrypted=None, weights=None, extra
         lambda u, v, c: {'op': 'cross_restore', 'user': u, 'victim': v, 'client': c})
     add('unlock_wrong', w['unlock_wrong'], dict(u=small, o=small, h=st.integers(0, 2), v=st.integers(0, 3)),
         lambda u, o, h, v: {'op': 'unlock_wrong', 'user': u, 'other': o, 'how': h, 'variant': v})
+    add('neighbour', w.get('neighbour', 1), dict(k=small), lambda k: {'op': 'neighbour', 'what': k})
     add('plant', w['plant'], dict(u=small, k=st.sampled_from(['orphans', 'foreign']), n=small, s=st.integers(0, 999)),
         lambda u, k, n, s: {'op': 'plant', 'user': u, 'kind': k, 'n': n, 'seed': s})
     return Machine
